@@ -53,10 +53,15 @@ class Reader:
                 return ("SUM", self.desc(n.args[0]))
             if fn == "np.multiply" and len(n.args) == 2:
                 return ("MUL",) + tuple(sorted([self.desc(n.args[0]), self.desc(n.args[1])], key=repr))
-            if fn == "sorted" and len(n.args) == 1:
-                return ("sorted", self.desc(n.args[0]))
-            if fn == "set" and len(n.args) == 1:
-                return ("set", self.desc(n.args[0]))
+            if fn in ("sorted", "set") and len(n.args) == 1 and not n.keywords:
+                # iterating a bare column selection is iterating its values: set(df[P][C]) = set(df[P][C].tolist())
+                a0 = n.args[0]
+                if isinstance(a0, ast.Subscript) and isinstance(a0.slice, ast.Constant) and isinstance(a0.slice.value, str):
+                    aslist = ast.Call(func=ast.Attribute(value=a0, attr="tolist", ctx=ast.Load()), args=[], keywords=[])
+                    sel2 = parse_selection(aslist, self.frame, self.res)
+                    if sel2 is not None:
+                        return (fn, ("sel",) + sel2.key()[1:])
+                return (fn, self.desc(a0))
             if fn.endswith(".join") and len(n.args) == 1 and isinstance(n.func, ast.Attribute) and isinstance(n.func.value, ast.Constant):
                 return ("join", n.func.value.value, self.desc(n.args[0]))
             if fn.endswith(".format") and isinstance(n.func, ast.Attribute) and isinstance(n.func.value, ast.Constant):
@@ -96,11 +101,31 @@ class Reader:
         return d
 
     # ---------------------------------------------------------------- statements
+    @staticmethod
+    def deaug(s):
+        """f &= X  ->  f = f & X  (also inside a one-statement `if`)"""
+        def one(x):
+            if isinstance(x, ast.AugAssign) and isinstance(x.op, ast.BitAnd) and isinstance(x.target, ast.Name):
+                return ast.copy_location(ast.Assign(targets=[ast.Name(id=x.target.id, ctx=ast.Store())],
+                                                    value=ast.BinOp(left=ast.Name(id=x.target.id, ctx=ast.Load()), op=ast.BitAnd(), right=x.value)), x)
+            return x
+        if isinstance(s, ast.If) and len(s.body) == 1 and not s.orelse and isinstance(s.body[0], ast.AugAssign):
+            n = one(s.body[0])
+            if n is not s.body[0]:
+                s2 = ast.copy_location(ast.If(test=s.test, body=[n], orelse=[]), s)
+                ast.fix_missing_locations(s2)
+                return s2
+        n = one(s)
+        if n is not s:
+            ast.fix_missing_locations(n)
+        return n
+
     def run(self, stmts, conds=()):
         for s in stmts:
             self.stmt(s, conds)
 
     def stmt(self, s, conds):
+        s = self.deaug(s)
         if isinstance(s, ast.Assign) and len(s.targets) == 1:
             t = s.targets[0]
             if isinstance(t, ast.Name):
